@@ -1,7 +1,7 @@
 (* Extraction of the executable model. Only ExtrOcamlBasic directives are used
    (bool, option, unit, list, prod, sumbool, sumor -> OCaml's own); N, Z, positive, nat stay inductive. *)
 From Coq Require Import Extraction ExtrOcamlBasic.
-From CV Require Import Base Consts Token PostAction Env Loop Transient Signals Timeout ConcPing ConcChannel RunLoop.
+From CV Require Import Base Consts Token PostAction Env Loop Transient Signals Timeout ConcPing ConcChannel RunLoop ConcExec.
 Extraction Language OCaml.
 Extraction "model.ml"
   Consts.BITS_VERSION Consts.BITS_SUBID
@@ -13,4 +13,5 @@ Extraction "model.ml"
   Signals.s_init Signals.s_step Timeout.eff_timeout
   ConcPing.cp_init ConcPing.cp_step ConcPing.wf_prog
   ConcChannel.cc_init ConcChannel.cc_step ConcChannel.wf_cprog
-  RunLoop.r_init RunLoop.r_step.
+  RunLoop.r_init RunLoop.r_step
+  ConcExec.e_init ConcExec.e_step.
